@@ -68,6 +68,38 @@ fn small_parsers(s: &str, st: &mut Stats) -> Option<(String, String)> {
             Ok(x) => {
                 parsed += 1;
                 let _ = x.to_string();
+                let _ = format!("{:?}", x);
+                // a parsed card pair is a value too: it can be put into a range and handed to the evaluator,
+                // or straight to Showdown::new, on boards that hold other cards of its ranks
+                let range: HandRange = std::iter::once((x, 1.0f32)).collect();
+                let _ = range.to_string();
+                let _ = range.rank_pairs();
+                let _ = range.orphan_card_pairs();
+                let ia = idx_of(&x[0]);
+                let ib = idx_of(&x[1]);
+                let same_rank: Vec<u8> = (0..4u8).map(|s| (ia & !3) | s).filter(|c| *c != ia && *c != ib).collect();
+                let mut others: Vec<u8> = (0..52u8).filter(|c| (c >> 2) != (ia >> 2) && (c >> 2) != (ib >> 2)).collect();
+                others.truncate(5);
+                let mut flops: Vec<[u8; 3]> = vec![[others[0], others[1], others[2]]];
+                if same_rank.len() >= 2 {
+                    flops.push([same_rank[0], same_rank[1], others[0]]);
+                }
+                if same_rank.len() >= 3 {
+                    flops.push([same_rank[0], same_rank[1], same_rank[2]]);
+                }
+                for f in flops {
+                    let ev = FlopExhaustiveEvaluator::new(&board_opt(&f), &vec![range.clone()]);
+                    let _ = ev.into_iter().count();
+                    let all = all_cards();
+                    let mut board5 = vec![f[0], f[1], f[2]];
+                    for c in 0..52u8 {
+                        if board5.len() < 5 && !board5.contains(&c) && c != ia && c != ib {
+                            board5.push(c);
+                        }
+                    }
+                    let b = [all[board5[0] as usize], all[board5[1] as usize], all[board5[2] as usize], all[board5[3] as usize], all[board5[4] as usize]];
+                    let _ = espada::evaluator::Showdown::new(vec![x], b, 1.0);
+                }
             }
             Err(e) => {
                 let _ = format!("{:?}", e);
@@ -80,7 +112,7 @@ fn small_parsers(s: &str, st: &mut Stats) -> Option<(String, String)> {
             st.parsed_small += p;
             None
         }
-        Err(e) => Some(("Rank/Suit/Card/CardPair::from_str".into(), format!("{} at {}", e, last_panic_loc()))),
+        Err(e) => Some(("Rank/Suit/Card/CardPair::from_str and use of the parsed value".into(), format!("{} at {}", e, last_panic_loc()))),
     }
 }
 
@@ -432,6 +464,61 @@ pub fn run(tier: &str, mode: Mode) -> i32 {
             }
         }
         rep.sub("case-variants", "letter-case variants of the token shapes (all 2,704 card-pair shapes and the 1,014 short shapes, every 40th span shape): each single letter flipped and all letters flipped, e.g. 'AsAS', 'aKs', 'AKS+'; distinct_nontrivial = variants that parse (none on the pinned grammar)", st_all.strings, st_all.parsed_tokens + st_all.nonempty_ranges, false, json!({"variants": variants.len()}));
+    }
+
+    // (c2b) one-edit mutations of the token shapes: a character deleted, doubled, or two neighbours swapped
+    {
+        let shapes = shape_strings();
+        let mut variants: Vec<String> = vec![];
+        for (i, sh) in shapes.iter().enumerate() {
+            let short = sh.len() <= 4;
+            if !short && i % (if thorough { 8 } else { 48 }) != 0 {
+                continue;
+            }
+            for suf in ["", ":0.5"] {
+                let chars: Vec<char> = format!("{}{}", sh, suf).chars().collect();
+                for k in 0..chars.len() {
+                    let mut v = chars.clone();
+                    v.remove(k);
+                    variants.push(v.iter().collect());
+                    let mut v = chars.clone();
+                    v.insert(k, chars[k]);
+                    variants.push(v.iter().collect());
+                    if k + 1 < chars.len() {
+                        let mut v = chars.clone();
+                        v.swap(k, k + 1);
+                        variants.push(v.iter().collect());
+                    }
+                }
+            }
+        }
+        variants.sort();
+        variants.dedup();
+        let chunk = 256;
+        let nch = (variants.len() + chunk - 1) / chunk;
+        let outs = par_map(nch, |c| {
+            let mut st = Stats::default();
+            let mut bad = vec![];
+            for s in &variants[c * chunk..((c + 1) * chunk).min(variants.len())] {
+                st.strings += 1;
+                if let Some((stage, what)) = big_parsers(s, mode, false, &mut st) {
+                    if bad.len() < 3 {
+                        bad.push((s.clone(), stage, what));
+                    }
+                }
+            }
+            (st, bad)
+        });
+        let mut st_all = Stats::default();
+        for (st, bad) in outs {
+            st_all.strings += st.strings;
+            st_all.parsed_tokens += st.parsed_tokens;
+            st_all.nonempty_ranges += st.nonempty_ranges;
+            for (s, stage, what) in bad {
+                push_viol(&mut rep, "shape-mutations", &s, &stage, &what, mode);
+            }
+        }
+        rep.sub("shape-mutations", "one-edit mutations of the token shapes, bare and with ':0.5' (all short and card-pair shapes, every 48th span shape in quick / 8th in thorough): each character deleted, each doubled, each adjacent pair swapped - e.g. 'AKs-AQ', 'AKss', 'AK-sAQs', 'AKs:.05'; distinct_nontrivial = mutations that still parse", st_all.strings, st_all.parsed_tokens + st_all.nonempty_ranges, false, json!({"mutations": variants.len()}));
     }
 
     // (c3) junk around and inside the weight; weight spellings f32::from_str would accept but the notation does not
